@@ -63,6 +63,10 @@ CHECKS = {
    text="Seed determinism decided symbolically for the pure-Python consumers of random / numpy.random / geometric (22 seeded functions): each is executed twice in one path under stubs that name every draw R(stream, position); draws made after the function seeded a generator are shared solver variables, ambient draws are fresh ones, the seed is a solver integer (falsy seeds included) and z3 searches for draw values that make the two outputs differ. For functions that delegate to networkx only the forwarding of the seed is decided.",
    note="Reduced reach, stated: one small parameter tuple per function; networkx generators/layouts are stubbed (seed forwarding only); spectral_clustering (ARPACK start vector, float k-means) cannot be entered by the stubs and is outside the claim.",
    technique="bounded symbolic execution (z3) with stream-tagged uninterpreted RNG draws, two calls per path"),
+ "C15": dict(level=MC, ref="5/C15",
+   text="On every hypergraph shape without repeated or empty edges within the bound, the three simpliciality measures (raw and normalised edit distance, mean face edit distance, simplicial fraction and the two derived scores) are compared with exhaustive subset enumeration; labels are unbounded orderable solver integers (each label order the Trie's sort can see is a path), members are listed in several orders, min_size in 1..4 and exclude_min_size are solver-chosen; scores in [0,1] or NaN and equal to 1 on downward-closed shapes. A second harness forks labels exhaustively over [-3,3] under real hashing.",
+   note="Oracle = brute-force enumeration on the concrete incidence shape; floats compared with tolerance 1e-9.",
+   technique="bounded symbolic execution (z3) of the simpliciality code with symbolic labels against an exhaustive-enumeration oracle"),
 }
 NOT_APPLICABLE = {
  "C11": "disk round trips: every value that reaches a file passes through json/numpy C encoders which reject or realise a symbolic proxy, so no solver variable can cross the file boundary; in-memory halves are decided under C10/C04",
